@@ -100,6 +100,11 @@ func (rt *RoundTripper) cacheResponse(req *http.Request, resp *http.Response) {
 
 	// RFC 7234, section 4.2.3: the time the response spent in other caches counts against its freshness lifetime
 	if age, err := strconv.Atoi(strings.TrimSpace(resp.Header.Get("Age"))); err == nil && age > 0 {
+		if time.Duration(age) >= ttl/time.Second+1 {
+			// older than its freshness lifetime (and possibly too big to be expressed as duration)
+			return
+		}
+
 		ttl -= time.Duration(age) * time.Second
 	}
 
